@@ -467,6 +467,8 @@ def ins_lattice(seed, quick, resume_subsets=True):
         assigns.append({"model": "G2step", "replace_all": True, "threshold_method": "quantile"})
         assigns.append({"model": "G2cut", "draw_constant": False, "reparameterisation": None})
         assigns.append({"model": "G2hole", "draw_iid_live": False, "strict_threshold": True})
+        assigns.append({"model": "G2tilt"})
+        assigns.append({"model": "G2tilt", "draw_iid_live": False, "reparameterisation": None})
         assigns.append({"min_remove": 5})
         # combinations that leave fewer than min_samples above the threshold (training-set clause of C17)
         assigns.append({"draw_iid_live": False, "n_update": 45, "min_samples": 20})
